@@ -20,6 +20,10 @@ func c03Run(c hCase) Verdict {
 	}
 	m := newMonitor(c)
 	v := Verdict{}
+	if k := closedByShutdown(c, run); k >= 0 {
+		run.steps = run.steps[:k]
+		v.Classes = append(v.Classes, "connection_ended_by_the_shutdown")
+	}
 	sawAcceptedMail := false
 	for i, s := range run.steps {
 		wasTxn := m.txn
